@@ -170,6 +170,20 @@ impl Prop for C05 {
             None => return CaseResult::skip("no-module"),
         };
         let full = format!("{src}\n--- generated ---\n{gen}");
+        // a neighbour module with the opposite EXTENSIBILITY setting, generated before / after this one, must not matter
+        let mut nb_discs = vec![];
+        if c.adds.len() <= 1 && !c.versions {
+            for nb_name in ["A-Nb", "Z-Nb"] {
+                let nb = format!("{nb_name} DEFINITIONS AUTOMATIC TAGS{} ::= BEGIN\nNb ::= SEQUENCE {{ n BOOLEAN }}\nNe ::= ENUMERATED {{ p, q }}\nEND\n", if c.implied { "" } else { " EXTENSIBILITY IMPLIED" });
+                if let Outcome::Ok { generated, .. } = compile_rasn(&[src.clone(), nb.clone()], &Cfg::default()) {
+                    if let Ok(p2) = project(&generated) {
+                        if p2.module("m").map(|x| x.without_docs()) != Some(m.without_docs()) {
+                            nb_discs.push(Disc::new(format!("ext|neighbour|kind={}|self-implied={}|neighbour={}", c.kind, c.implied, if nb_name.starts_with('A') { "before" } else { "after" }), format!("module M differs when compiled next to\n{nb}\n{full}\n--- joint ---\n{generated}")));
+                        }
+                    }
+                }
+            }
+        }
         if c.kind == "ENUMERATED" {
             let name = if c.nested { "AN" } else { "A" };
             let mut discs = vec![];
@@ -193,12 +207,15 @@ impl Prop for C05 {
                 }
                 _ => discs.push(Disc::new("ext|kind=ENUMERATED|missing-item", full.clone())),
             }
+            discs.extend(nb_discs);
             return CaseResult { discs, nontrivial: true, outcome: format!("ok:ENUMERATED:m{}", c.marker), skipped: None };
         }
         let ty = build(c);
         let mut cmp = Cmp { m, discs: vec![], visited: Default::default(), implied: c.implied, prefix: "ext", src: &full, check_ext: true, check_shape: false };
         cmp.top(&ty);
         let _ = layout;
-        CaseResult { discs: cmp.discs, nontrivial: true, outcome: format!("ok:{}:m{}:g{}", c.kind, c.marker, c.adds.iter().filter(|a| **a > 0).count()), skipped: None }
+        let mut discs = cmp.discs;
+        discs.extend(nb_discs);
+        CaseResult { discs, nontrivial: true, outcome: format!("ok:{}:m{}:g{}", c.kind, c.marker, c.adds.iter().filter(|a| **a > 0).count()), skipped: None }
     }
 }
